@@ -256,10 +256,17 @@ class Worker:
                                   bufsize=1)
 
     def ask(self, req: dict) -> dict:
+        res = self.ask_once(req, KILL_TIMEOUT)
+        if any(st[1] == 'ERR:OTHER:Hang' for st in res['steps']):
+            # confirm in a fresh process with a longer leash: a loaded host must not be reported as a hang
+            res = self.ask_once(req, 2 * KILL_TIMEOUT)
+        return res
+
+    def ask_once(self, req: dict, kill_after: float) -> dict:
         try:
             self.p.stdin.write(json.dumps(req) + '\n')
             self.p.stdin.flush()
-            r, _, _ = _select.select([self.p.stdout], [], [], KILL_TIMEOUT)
+            r, _, _ = _select.select([self.p.stdout], [], [], kill_after)
             line = self.p.stdout.readline() if r else ''
         except (BrokenPipeError, OSError):
             line = ''
